@@ -60,6 +60,8 @@ def ensure_pinned_env(argv=None):
     if os.environ.get('VERIF_SRC'):
         env['VERIF_SRC'] = os.environ['VERIF_SRC']
     try:
+        if os.environ.get('VERIF_KEEP_ASLR') == '1':     # self-test knob: behave as where the call fails
+            raise OSError('personality not attempted')
         # no address-space randomisation in the new image: object addresses (hence id()-based
         # hashing, set orders and allocator reuse) become a repeatable function of the execution
         import ctypes
